@@ -107,8 +107,9 @@ def run_c07(ck):
     cases = []
     pax = '"some"' if ck.quick else '"all"'
     for k in (1, 2):
-        # quick: K=2 over the honest square and two corrupted ones (a data cell, a Q4 parity cell)
-        junk = '"two"' if (ck.quick and k == 2) else '"quadrants"'
+        # quick: K=2 over the honest square and two corrupted ones (a data cell, a Q4 parity cell);
+        # thorough: every single overwritten cell
+        junk = ('"two"' if k == 2 else '"quadrants"') if ck.quick else '"all"'
         ov = {"K": k, "JunkMode": junk, "PaxMode": pax}
         mc = ck.cfg_with("MC_SqBefp.cfg", ov, name=f"MC_SqBefp_k{k}.cfg")
         ck.tlc_mc("MC_SqBefp", mc, tag=f"mc_k{k}",
